@@ -39,8 +39,8 @@ Proof. all_cfg c. Qed.
 (** each repair removes its own cause *)
 Lemma no_diverge_when_fixed v c : fix_endctx v = true -> fst (sync v c) <> SDiverge.
 Proof.
-  intros H. destruct v as [a b p q]. cbn in H. subst a.
-  destruct b, p, q; destruct c as [s t k g j h kl]; destruct s, t, k, g, j, h, kl; vm_compute; discriminate.
+  intros H. destruct v as [a b p q r]. cbn in H. subst a.
+  destruct b, p, q, r; destruct c as [s t k g j h kl]; destruct s, t, k, g, j, h, kl; vm_compute; discriminate.
 Qed.
 
 Lemma no_nil_handler_when_fixed v c : fix_verify v = true -> handler_nil v c = false.
@@ -91,3 +91,8 @@ Lemma empty_batch_rejected :
   In w_empty all_cfgs
   /\ run_job jfixed w_empty = {| o_accepted := true; o_alive := true; o_result := Some RFailure; o_ticket := true |}.
 Proof. split; [solve_in|]. vm_compute. reflexivity. Qed.
+
+Lemma racy_fixed c : racy jfixed c = false.
+Proof. reflexivity. Qed.
+Lemma racy_current_count : length (filter (racy jcurrent) all_cfgs) = 45.
+Proof. vm_compute. reflexivity. Qed.
